@@ -243,9 +243,11 @@ def jobs(tier):
         js.append(job_permutation(3, images, False))
         for (ns, sil) in [(8, None), (8, ('ref', 0, 1)), (8, ('est', 1, 2)), (6, ('ref', 1, 0)), (4, None)]:
             js.append(job_framewise(images, ns, sil))
-        for (ns, sil) in [(8, None), (4, None), (3, None)]:
+        for (ns, sil) in [(8, None), (4, None), (3, None), (5, None)]:
             js.append(job_framewise(images, ns, sil, cp=True))
         js.append(job_framewise(images, 3, None))
+        js.append(job_framewise(images, 5, None))      # exactly one window fits and leaves a tail: the whole signal is evaluated
+        js.append(job_framewise(images, 7, None))      # two windows and a tail
         js.append(job_empty(images, False))
         js.append(job_empty(images, True))
     return js
